@@ -316,6 +316,10 @@ let classify head body lines supported =
 
 let fuel = nat_of_int 4000
 
+(* the tree under test: with or without fixes/C01-cancel-complete.patch (props/C01.py looks at the sources) *)
+let cancelmark = (try Sys.getenv "C01_CANCELMARK" <> "0" with Not_found -> true)
+let fixes_in_tree = if cancelmark then all_fixed else { all_fixed with fx_cancelmark = false }
+
 (* C01_DUMP=1: print the model inputs of every replayed case in Coq syntax (used to write the
    witnesses of coq/Core/Lifecycle_refuted.v) *)
 let dump = (try Sys.getenv "C01_DUMP" = "1" with Not_found -> false)
@@ -397,7 +401,7 @@ let () =
                  | Some i -> Some (Printf.sprintf "  (%s, %s)" (input_str i) (ls tev_str tape)) | None -> None) segs))
               k (match final with Some t -> ls tev_str t | None -> "[]")
           end;
-          let mcfg = { cf_fix = all_fixed; cf_tries = nat_of_int cfg.tries; cf_nservers = nat_of_int cfg.nservers;
+          let mcfg = { cf_fix = fixes_in_tree; cf_tries = nat_of_int cfg.tries; cf_nservers = nat_of_int cfg.nservers;
                        cf_igntc = List.mem "igntc" cfg.flags; cf_nocheckresp = List.mem "nocheckresp" cfg.flags;
                        cf_dns0x20 = List.mem "dns0x20" cfg.flags } in
           (* step by step, to name the operation at which model and implementation part *)
